@@ -109,6 +109,16 @@ def gen_scripts(family, tier, wd, seed):
 
 
 REGRESSIONS = [
+    # refused creations (id taken, name free / name taken, id free) change nothing - statistics included (seeded change C16_4)
+    *[(f'refused-creates-{tr}', tr, [dict(op='create_stream', id=1, name='sa'), dict(op='create_stream', id=1, name='sb'), dict(op='create_stream', id=2, name='sa'),
+                                     dict(op='create_topic', s=dict(by='id', v=1), id=2, name='ta', parts=2),
+                                     dict(op='create_topic', s=dict(by='id', v=1), id=2, name='tb', parts=3),
+                                     dict(op='create_topic', s=dict(by='id', v=1), id=3, name='ta', parts=3),
+                                     dict(op='create_group', s=dict(by='id', v=1), t=dict(by='id', v=2), id=1, name='ga'),
+                                     dict(op='create_group', s=dict(by='id', v=1), t=dict(by='id', v=2), id=1, name='gb'),
+                                     dict(op='create_group', s=dict(by='id', v=1), t=dict(by='id', v=2), id=2, name='ga'),
+                                     dict(op='send', s=dict(by='id', v=1), t=dict(by='id', v=2), p=1, k=2),
+                                     dict(op='restart')]) for tr in ('tcp', 'http', 'quic')],
     # renames of entities addressed by their (old) NAME, over every transport that carries catalogue scenarios
     *[(f'rename-by-name-{tr}', tr, [dict(op='create_stream', id=0, name='sa'),
                                     dict(op='create_topic', s=dict(by='id', v=1), id=0, name='ta', parts=1),
@@ -179,7 +189,7 @@ def build_scenarios(families, tier, wd, seed):
                                       steps=concretise(s + tail + ([dict(op='restart')] if rnd.random() < 0.2 else []), rnd, tr)))
     for name, tr, steps in REGRESSIONS:
         n += 1
-        scenarios.append(dict(id=f'regress-{name}', family='regress', cfg=dict(transport=tr, cache='off'), seed=7, steps=steps))
+        scenarios.append(dict(id=f'regress-{name}', family='regress', cfg=dict(transport=tr, cache='off', save_threshold=1), seed=7, steps=steps))
     return scenarios, stats
 
 
